@@ -133,7 +133,7 @@ def oracle(sc):
         if refusals:
             return ('transport refused a write but no error was dispatched', 'an error', [])
         if rest:
-            return ('octets after the last whole frame although the worker is between messages', b'', rest[:60])
+            return ('accepted octets that are no frame of a put message in the framing in force at its put, although the worker is between messages', b'', rest[:60])
         if len(got) != len(texts) or sc.final['q']:
             return ('a message whose put completed was not written although the transport accepts', [m.hex() for m in texts], [m.hex() for m in got])
         if sc.blocked_at.get('W') != 'select':
@@ -194,7 +194,8 @@ def small_specs():
         S([[A1], [B1]]),                                                        # two submitters, whole writes
         S([[A1, A2], [B1]], answers=[['a', 7], ['a', 30]]),                     # puts while a frame is in flight
         S([[A1], [B1]], base=0, readys=[0, 1, 0], ticks=1),                     # not-ready windows
-        S([[A1], [B2]], base=0, setbase=1, ticks=1),                            # _base assigned while the worker runs
+        S([[A1]], base=0, setbase=1, ticks=1),                                  # _base assigned while the worker runs
+        S([[A1], [B2]], base=0, setbase=1, ticks=1),
         S([[A1, A2], [B1]], answers=[['a', 5], ['r', 0]]),                      # refused inside the first frame
         S([[A1], [B1], [C1]], answers=[['a', 9999], ['x']]),                    # the transport raises at the second frame
         S([[A2, A1], [B2]], base=0, answers=[['a', 3], ['a', 3], ['r', -1]]),   # negative count
@@ -245,7 +246,7 @@ def check(ctx, n_random, dfs_bound, dfs_cap, corpus=(), sig_of=None):
     finally:
         wr_sched.uninstall()
     outs = ctx.model.batch([model_call(sc) for sc in runs]) if ctx.model else [None] * len(runs)
-    bad = 0
+    ndis = nfail = 0
     for sc, mo in zip(runs, outs):
         case = describe(sc.spec, sc.decisions_used)
         ctx.count(case, nontrivial=True, key=['wsched', sc.spec, sc.decisions_used])
@@ -259,18 +260,17 @@ def check(ctx, n_random, dfs_bound, dfs_cap, corpus=(), sig_of=None):
         ctx.hist('wsched_labels', len(sc.labels()) // 20 * 20)
         if ctx.evaluations % 397 == 1:
             ctx.sample({'case': case, 'puts': puts, 'end': sc.result, 'labels': len(sc.labels()), 'wire_octets': len(sc.wire)})
-        if bad >= 12:
-            continue
-        if mo is not None:
+        if mo is not None and ndis < 8:
             d = compare(sc, mo)
             if d:
-                bad += 1
+                ndis += 1
                 ctx.disagree(case, 'WriterSched accepts the trace and predicts the observables', d,
                              'trace validation against Model/WriterSched.v', theorem='C02_sched_*')
-        f = oracle(sc)
-        if f:
-            bad += 1
-            ctx.fail(case, f[0], sig=None, expected=f[1], actual=f[2])
+        if nfail < 4:
+            f = oracle(sc)
+            if f:
+                nfail += 1
+                ctx.fail(case, f[0], sig=None, expected=f[1], actual=f[2])
     return len(runs)
 
 def search(ctx, seeds, n=400):
@@ -315,3 +315,28 @@ def replay(doc):
     else:
         print('holds')
     return f is None
+
+if __name__ == '__main__':
+    # oracle-only run of the scheduled scenarios (no model): python -m harness.wr_check [bound] [cap] [n_random]
+    import sys, random, json
+    from vlib import paths
+    paths.use_repo()
+    from . import wr_sched
+    bound, cap, nrand = (int(x) for x in (sys.argv[1:4] + ['2', '300', '300'][len(sys.argv) - 1:]))
+    rng = random.Random(0)
+    n = 0
+    def runs():
+        for spec in small_specs():
+            yield from dfs_schedules(spec, bound, cap, rng=rng)
+        for i in range(nrand):
+            yield run_case(gen_spec(rng), seed=i)
+    try:
+        for sc in runs():
+            n += 1
+            f = oracle(sc)
+            if f:
+                print('after %d runs FAILS: %s' % (n, f[0])); print(json.dumps(describe(sc.spec, sc.decisions_used))[:400]); break
+        else:
+            print('%d runs, oracle holds on all' % n)
+    finally:
+        wr_sched.uninstall()
